@@ -51,20 +51,26 @@ Record feats : Type := mkFeats {
   fList : bool;  (* List(T): literals, cons / first / rest / # / empty? / reverse / = / l.i, for x in l *)
   fDom : bool;   (* the parametrised domains BoxA(T) / BoxB(T) of category BoxCat(T) with defaults *)
   fMac : bool;   (* macros: type names through MI / BI, DBL(x) / SQR(x) calls *)
+  fClo : bool;   (* function values: ((a: T): R +-> f(captured.., a)), passed, returned, stored, applied *)
+  fUni : bool;   (* Union(..): construction, `case` tests, guarded branch access *)
+  fArr : bool;   (* Array(T): literals, new(n, x), #, a.i, a.i := v, for x in a *)
+  fRcd : bool;   (* Record(..): construction, field read, field update, passing and returning *)
   fTryTop : bool; (* `try` statements stand at file level only (true) or inside functions only (false) *)
   fQual : bool   (* literals rendered `5@MachineInteger` (true) or through the typed helper `mi(5)` (false) *)
 }.
 
 Definition draw_feats (r : rng) : feats :=
   mkFeats (rb r 1 3 4) (rb r 2 2 3) (rb r 3 4 5) (rb r 4 1 2) (rb r 5 1 2)
-          (rb r 6 2 3) (rb r 7 3 4) (rb r 8 2 3) (rb r 9 1 2) (rb r 11 1 4) (rb r 12 1 2) (rb r 15 1 2) (rb r 16 1 3) (rb r 14 1 2) (rb r 17 1 2) (rb r 10 1 2).
+          (rb r 6 2 3) (rb r 7 3 4) (rb r 8 2 3) (rb r 9 1 2) (rb r 11 1 4) (rb r 12 1 2) (rb r 15 1 2) (rb r 16 1 3) (rb r 14 1 2) (rb r 21 1 2) (rb r 20 1 2) (rb r 19 1 2) (rb r 18 1 2) (rb r 17 1 2) (rb r 10 1 2).
 
 (* ---------------- generation environment ---------------- *)
 Record fsig : Type := mkSig {
   gs_name : nat; gs_params : list ty; gs_ret : ty; gs_pure : bool;
   gs_rec : bool;         (* first parameter is a down-counter *)
   gs_thr : bool;         (* may let a user exception escape *)
-  gs_try : bool          (* may execute a `try` (its body holds one, or it calls such a function) *)
+  gs_try : bool;         (* may execute a `try` (its body holds one, or it calls such a function) *)
+  gs_ncap : option nat   (* Some k: a helper for function values (sees no global, base types only);
+                            its first k parameters are the captured values *)
 }.
 
 Inductive mode : Type := MAny | MPure | MStable.
@@ -94,15 +100,18 @@ Record genv : Type := mkGenv {
   gNoTry : bool;             (* below a top-level `if` (either literal style): no `try` *)
   gNoSC : bool;              (* inside the condition of an exit `c => ..`: no short-circuit and / or *)
   gCallTF : bool             (* only functions that never execute a `try` may be called here (inside
-                                functions that are themselves `try`-free)                          *)
+                                functions that are themselves `try`-free)                          *);
+  gPos : nat                 (* where a record-typed expression being generated will go (Types.v,
+                                records without aliasing): 2 = stored / returned: fresh records only;
+                                1 = argument: fresh or an immutable name; 0 = operand of a field read *)
 }.
 
 Definition set_L (E : genv) (l : list (ty * vkind)) : genv :=
-  mkGenv (gFe E) (gG E) (gF E) l (gCnt E) (gTop E) (gRet E) (gLoop E) (gPureF E) (gSelf E) (gNoIf E) (gNoLoop E) (gInTry E) (gThr E) (gNoTry E) (gNoSC E) (gCallTF E).
+  mkGenv (gFe E) (gG E) (gF E) l (gCnt E) (gTop E) (gRet E) (gLoop E) (gPureF E) (gSelf E) (gNoIf E) (gNoLoop E) (gInTry E) (gThr E) (gNoTry E) (gNoSC E) (gCallTF E) (gPos E).
 Definition set_loop (E : genv) (b : bool) : genv :=
-  mkGenv (gFe E) (gG E) (gF E) (gL E) (gCnt E) (gTop E) (gRet E) b (gPureF E) (gSelf E) (gNoIf E) (gNoLoop E) (gInTry E) (gThr E) (gNoTry E) (gNoSC E) (gCallTF E).
+  mkGenv (gFe E) (gG E) (gF E) (gL E) (gCnt E) (gTop E) (gRet E) b (gPureF E) (gSelf E) (gNoIf E) (gNoLoop E) (gInTry E) (gThr E) (gNoTry E) (gNoSC E) (gCallTF E) (gPos E).
 Definition set_cnt (E : genv) (c : list nat) : genv :=
-  mkGenv (gFe E) (gG E) (gF E) (gL E) c (gTop E) (gRet E) (gLoop E) (gPureF E) (gSelf E) (gNoIf E) (gNoLoop E) (gInTry E) (gThr E) (gNoTry E) (gNoSC E) (gCallTF E).
+  mkGenv (gFe E) (gG E) (gF E) (gL E) c (gTop E) (gRet E) (gLoop E) (gPureF E) (gSelf E) (gNoIf E) (gNoLoop E) (gInTry E) (gThr E) (gNoTry E) (gNoSC E) (gCallTF E) (gPos E).
 
 (* With the qualified literal style (fQual) nothing at the top level of a file nests an `if`
    (statement or expression) and a loop in either order: the pinned compiler rejects a
@@ -117,10 +126,13 @@ Definition set_cnt (E : genv) (c : list nat) : genv :=
    `if ({ if b then { return x }; true }) then ..` inside a function with "The `return' is
    not inside a function" (reported as a finding)                                          *)
 Definition no_ret (E : genv) : genv :=
-  mkGenv (gFe E) (gG E) (gF E) (gL E) (gCnt E) (gTop E) None (gLoop E) (gPureF E) (gSelf E) (gNoIf E) (gNoLoop E) (gInTry E) (gThr E) (gNoTry E) (gNoSC E) (gCallTF E).
+  mkGenv (gFe E) (gG E) (gF E) (gL E) (gCnt E) (gTop E) None (gLoop E) (gPureF E) (gSelf E) (gNoIf E) (gNoLoop E) (gInTry E) (gThr E) (gNoTry E) (gNoSC E) (gCallTF E) (gPos E).
+Definition set_pos (E : genv) (p : nat) : genv :=
+  mkGenv (gFe E) (gG E) (gF E) (gL E) (gCnt E) (gTop E) (gRet E) (gLoop E) (gPureF E) (gSelf E) (gNoIf E)
+         (gNoLoop E) (gInTry E) (gThr E) (gNoTry E) (gNoSC E) (gCallTF E) p.
 Definition set_try (E : genv) (b : bool) : genv :=
   mkGenv (gFe E) (gG E) (gF E) (gL E) (gCnt E) (gTop E) (gRet E) (gLoop E) (gPureF E) (gSelf E) (gNoIf E)
-         (gNoLoop E) b (gThr E) (gNoTry E) (gNoSC E) (gCallTF E).
+         (gNoLoop E) b (gThr E) (gNoTry E) (gNoSC E) (gCallTF E) (gPos E).
 (* may a call to g be placed here: throwing functions only where the exception is caught
    (or passed on by a function that is itself marked throwing)                             *)
 Definition thr_ok (E : genv) (g : fsig) : bool :=
@@ -130,17 +142,17 @@ Definition thr_ok (E : genv) (g : fsig) : bool :=
    qualified names there (same family of defect as above: `empty?` of a List(String) "did not
    match any possible parameter type ... could be suitable if imported" inside a top-level
    `if`).  Inside functions every shape is generated.                                        *)
-Definition lists_ok (E : genv) : bool := ((fList (gFe E) || fDom (gFe E)) && negb (gTop E && gNoTry E))%bool.
-Definition is_list (t : ty) : bool := match t with TList _ | TBox _ _ => true | _ => false end.
+Definition lists_ok (E : genv) : bool := ((fList (gFe E) || fDom (gFe E) || fRcd (gFe E) || fArr (gFe E) || fUni (gFe E) || fClo (gFe E)) && negb (gTop E && gNoTry E))%bool.
+Definition is_list (t : ty) : bool := match t with TList _ | TBox _ _ | TRec _ | TArr _ | TUni _ | TFun _ _ => true | _ => false end.
 Definition force_noif (E : genv) : genv :=
   mkGenv (gFe E) (gG E) (gF E) (gL E) (gCnt E) (gTop E) (gRet E) (gLoop E) (gPureF E) (gSelf E) true
-         (gNoLoop E) (gInTry E) (gThr E) (gNoTry E) (gNoSC E) (gCallTF E).
+         (gNoLoop E) (gInTry E) (gThr E) (gNoTry E) (gNoSC E) (gCallTF E) (gPos E).
 Definition sig_has_list (g : fsig) : bool := existsb is_list (gs_ret g :: gs_params g).
 Definition topq (E : genv) : bool := (gTop E && fQual (gFe E))%bool.
 Definition no_top_loop (E : genv) : genv :=
   if gTop E
   then mkGenv (gFe E) (gG E) (gF E) (gL E) (gCnt E) (gTop E) (gRet E) (gLoop E) (gPureF E) (gSelf E) (gNoIf E)
-              (fQual (gFe E) || gNoLoop E) (gInTry E) (gThr E) true (gNoSC E) (gCallTF E)
+              (fQual (gFe E) || gNoLoop E) (gInTry E) (gThr E) true (gNoSC E) (gCallTF E) (gPos E)
   else E.
 (* The condition of an exit `c => ..` holds no short-circuit `and` / `or`: the pinned compiler
    crashes on `(if c then (b or false) else b) => false; ..; false` inside a function (the
@@ -149,17 +161,35 @@ Definition no_top_loop (E : genv) : genv :=
 Definition exit_cond (E : genv) : genv :=
   let E1 := no_top_loop E in
   mkGenv (gFe E1) (gG E1) (gF E1) (gL E1) (gCnt E1) (gTop E1) (gRet E1) (gLoop E1) (gPureF E1) (gSelf E1)
-         (gNoIf E1) (gNoLoop E1) (gInTry E1) (gThr E1) (gNoTry E1) true (gCallTF E1).
+         (gNoIf E1) (gNoLoop E1) (gInTry E1) (gThr E1) (gNoTry E1) true (gCallTF E1) (gPos E1).
 Definition set_noif (E : genv) : genv :=
-  mkGenv (gFe E) (gG E) (gF E) (gL E) (gCnt E) (gTop E) (gRet E) (gLoop E) (gPureF E) (gSelf E) (topq E) (gNoLoop E) (gInTry E) (gThr E) (gNoTry E) (gNoSC E) (gCallTF E).
+  mkGenv (gFe E) (gG E) (gF E) (gL E) (gCnt E) (gTop E) (gRet E) (gLoop E) (gPureF E) (gSelf E)
+         (topq E || (gTop E && (fRcd (gFe E) || fArr (gFe E) || fUni (gFe E))))%bool
+         (gNoLoop E) (gInTry E) (gThr E) (gNoTry E) (gNoSC E) (gCallTF E) (gPos E).
 
 Definition elem_types (fe : feats) : list bty :=
   [BMI; BBool] ++ (if fInt fe then [BInt] else []) ++ (if fStr fe then [BStr] else []).
 
+(* the record types a program may use: shapes over the available base types *)
+Definition rec_types (fe : feats) : list (list bty) :=
+  [[BMI; BBool]; [BMI; BMI; BMI]]
+  ++ (if fInt fe then [[BInt; BMI]] else []) ++ (if fStr fe then [[BStr; BMI]; [BBool; BStr]] else []).
+
+(* function values: (captured parameter types, remaining parameter types, result type);
+   one helper function is generated per shape, before every global declaration            *)
+Definition clo_shapes (fe : feats) : list (list bty * list bty * bty) :=
+  [([BMI], [BMI], BMI); ([BMI; BBool], [BMI], BBool)]
+  ++ (if fStr fe then [([BStr], [BMI; BMI], BStr)] else [])
+  ++ (if fInt fe then [([BInt; BMI], [], BInt)] else []).
+
 Definition val_types (fe : feats) : list ty :=
   [TMI; TBool; TMI] ++ (if fInt fe then [TInt; TInt] else []) ++ (if fStr fe then [TStr] else [])
   ++ (if fList fe then map TList (elem_types fe) else [])
-  ++ (if fDom fe then [TBox DA NMI; TBox DB NMI] ++ (if fInt fe then [TBox DA NInt; TBox DB NInt] else []) else []).
+  ++ (if fDom fe then [TBox DA NMI; TBox DB NMI] ++ (if fInt fe then [TBox DA NInt; TBox DB NInt] else []) else [])
+  ++ (if fRcd fe then map TRec (rec_types fe) else [])
+  ++ (if fArr fe then map TArr (elem_types fe) else [])
+  ++ (if fUni fe then map TUni (rec_types fe) else [])
+  ++ (if fClo fe then map (fun sh => TFun (snd (fst sh)) (snd sh)) (clo_shapes fe) else []).
 
 Definition gen_ty (fe : feats) (r : rng) (i : Z) : ty := pick r i (val_types fe) TMI.
 
@@ -218,6 +248,13 @@ Definition gen_lit (t : ty) (r : rng) : expr :=
   | TStr => gen_blit BStr r
   | TList b => EListLit b (map (fun i => gen_blit b (ch r (Z.of_nat i + 20))) (seq 0 (Z.to_nat (rn r 8 4))))
   | TBox d n => EPrim (PBox d n) [gen_blit (match n with NMI => BMI | NInt => BInt end) r]
+  | TRec fs => ERec fs (map (fun ib => gen_blit (snd ib) (ch r (Z.of_nat (fst ib) + 20)))
+                            (combine (seq 0 (List.length fs)) fs))
+  | TArr b => EArrLit b (map (fun i => gen_blit b (ch r (Z.of_nat i + 20))) (seq 0 (S (Z.to_nat (rn r 8 3)))))
+  | TUni fs => let i := Z.to_nat (rn r 8 (Z.of_nat (List.length fs))) in
+               EUni fs i (gen_blit (nth i fs BMI) (ch r 20))
+  | TFun ps r0 => EClo 0 ps r0 []     (* placeholder, never emitted: see leaf *)
+  | TBad => ELit (LBool false)
   end.
 
 Definition small_lit (n : nty) (lo span : Z) (r : rng) : expr :=
@@ -228,13 +265,43 @@ Definition small_lit (n : nty) (lo span : Z) (r : rng) : expr :=
 (* ---------------- leaves ---------------- *)
 Definition leaf (E : genv) (m : mode) (t : ty) (r : rng) : expr :=
   let okg (d : ty * vkind) :=
-      (ty_eqb (fst d) t && match m with MStable => k_stable (snd d) | _ => true end)%bool in
+      (ty_eqb (fst d) t && match m with MStable => k_stable (snd d) | _ => true end
+       && match t with
+          | TRec _ | TArr _ => match gPos E with 0%nat => true | 1%nat => k_stable (snd d) | _ => false end
+          | _ => true
+          end)%bool in
   let gs := idx_where okg 0 (gG E) in
   let ls := idx_where okg 0 (gL E) in
   let cands := map EGlob gs ++ map ELoc ls ++ map ELoc ls in
+  (* a new function value: the helper whose remaining parameters / result fit, captured
+     arguments generated as literals or immutable names (never inside a loop: Types.v)      *)
+  let fresh_val :=
+      match t with
+      | TFun ps r0 =>
+          match filter (fun g => match gs_ncap g with
+                                 | Some k => (tys_eqb (skipn k (gs_params g)) (map ty_of_bty ps)
+                                              && ty_eqb (gs_ret g) (ty_of_bty r0))%bool
+                                 | None => false
+                                 end) (gF E) with
+          | g :: _ =>
+              let k := match gs_ncap g with Some k => k | None => 0%nat end in
+              EClo (gs_name g) ps r0
+                   (map (fun it => let okc (d : ty * vkind) := (ty_eqb (fst d) (snd it) && k_stable (snd d))%bool in
+                                   let cs := map EGlob (idx_where okc 0 (gG E))
+                                             ++ (if gLoop E then [] else map ELoc (idx_where okc 0 (gL E))) in
+                                   match cs with
+                                   | [] => gen_lit (snd it) (ch r (Z.of_nat (fst it) + 12))
+                                   | c0 :: _ => if rb r (Z.of_nat (fst it) + 12) 1 3 then gen_lit (snd it) (ch r (Z.of_nat (fst it) + 12))
+                                                else pick r (Z.of_nat (fst it) + 16) cs c0
+                                   end)
+                        (combine (seq 0 k) (firstn k (gs_params g))))
+          | [] => gen_lit t r
+          end
+      | _ => gen_lit t r
+      end in
   match cands with
-  | [] => gen_lit t r
-  | _ => if rb r 10 2 5 then gen_lit t r else pick r 11 cands (gen_lit t r)
+  | [] => fresh_val
+  | _ => if rb r 10 2 5 then fresh_val else pick r 11 cands fresh_val
   end.
 
 (* callable functions with result t in mode m *)
@@ -275,6 +342,52 @@ Fixpoint gen_expr (sz : nat) (E : genv) (m : mode) (t : ty) (r : rng) {struct sz
     let args2 (t1 t2 : ty) := [gen_expr k E (am 2%nat 0%nat) t1 (ch r 1); gen_expr k E (am 2%nat 1%nat) t2 (ch r 2)] in
     let c := rn r 0 12 in
     if c <? 3 then leaf E m t r
+    else if (c <? 8) && fClo (gFe E) && negb (gTop E && gNoTry E) && negb (gPureF E) && rb r 45 1 5
+            && (match m with MAny => true | _ => false end)
+            && (match t with TMI | TInt | TBool | TStr => true | _ => false end) then
+      (* application of a function value with result type t *)
+      match filter (fun sh => bty_eqb (snd sh) (bty_of t)) (clo_shapes (gFe E)) with
+      | [] => leaf E m t r
+      | sh0 :: shs =>
+          let sh := pick r 46 (sh0 :: shs) sh0 in
+          let ps := snd (fst sh) in
+          let fn := leaf E MPure (TFun ps (snd sh)) (ch r 1) in
+          (* inside a loop only an existing function value can be applied *)
+          if (gLoop E && match fn with EClo _ _ _ _ => true | _ => false end)%bool then leaf E m t r
+          else EApp fn (map (fun ib => gen_expr k E MPure (ty_of_bty (snd ib)) (ch r (Z.of_nat (fst ib) + 2)))
+                            (combine (seq 0 (List.length ps)) ps))
+      end
+    else if (c <? 8) && fUni (gFe E) && negb (gTop E && gNoTry E) && negb (gNoIf E) && rb r 42 1 6
+            && (match t with TMI | TInt | TBool | TStr => true | _ => false end) then
+      (* `u case f<i>` / guarded branch access `if u case f<i> then u.f<i> else lit`; u is pure, written twice *)
+      let cands := flat_map (fun fs => map (fun i => (fs, i))
+                                           (idx_where (fun b => bty_eqb b (bty_of t)) 0 fs)) (rec_types (gFe E)) in
+      match t, cands with
+      | TBool, _ => let fs := pick r 43 (rec_types (gFe E)) [BMI; BBool] in
+                    ECase (Z.to_nat (rn r 44 (Z.of_nat (List.length fs)))) (gen_expr k E (sub_mode m) (TUni fs) (ch r 1))
+      | _, [] => leaf E m t r
+      | _, c0 :: _ => let fi := pick r 43 cands c0 in
+                      let u := gen_expr k E (sub_mode m) (TUni (fst fi)) (ch r 1) in
+                      EIf (ECase (snd fi) u) (EUGet (snd fi) u) (gen_lit t (ch r 2))
+      end
+    else if (c <? 8) && fArr (gFe E) && negb (gTop E && gNoTry E) && rb r 39 1 6
+            && (match t with TMI | TInt | TBool | TStr => true | _ => false end)
+            && existsb (bty_eqb (bty_of t)) (elem_types (gFe E)) then
+      (* a.(e mod (# a)): arrays are never empty in generated programs; a is pure and written twice *)
+      let b := bty_of t in
+      let a := gen_expr k (set_pos E 0) (sub_mode m) (TArr b) (ch r 1) in
+      if (match t with TMI => rb r 40 1 3 | _ => false end) then EPrim (PALen (pick_elem E r 41)) [gen_expr k (set_pos E 0) (sub_mode m) (TArr (pick_elem E r 41)) (ch r 1)]
+      else EPrim (PAGet b) [a; EPrim (PMod NMI) [gen_expr k E (sub_mode m) TMI (ch r 2); EPrim (PALen b) [a]]]
+    else if (c <? 8) && fRcd (gFe E) && negb (gTop E && gNoTry E) && rb r 37 1 5
+            && (match t with TMI | TInt | TBool | TStr => true | _ => false end) then
+      (* field read: a record type of the program with a field of the wanted type *)
+      let cands := flat_map (fun fs => map (fun i => (fs, i))
+                                           (idx_where (fun b => bty_eqb b (bty_of t)) 0 fs)) (rec_types (gFe E)) in
+      match cands with
+      | [] => leaf E m t r
+      | c0 :: _ => let fi := pick r 38 cands c0 in
+                   EField (snd fi) (gen_expr k (set_pos E 0) m (TRec (fst fi)) (ch r 1))
+      end
     else if (c <? 8) && fDom (gFe E) && negb (gTop E && gNoTry E)
             && (match t with TMI => true | TInt => true | _ => false end) && rb r 35 1 6 then
       let n := nty_of t in
@@ -294,7 +407,7 @@ Fixpoint gen_expr (sz : nat) (E : genv) (m : mode) (t : ty) (r : rng) {struct sz
                    (EPrim (PLNth bt) [lt; EPrim (PAdd NMI) [EPrim (PMod NMI) [gen_expr k E (sub_mode m) TMI (ch r 4); EPrim (PLLen bt) [lt]];
                                                             ELit (LNum NMI 1)]]) in
       match t with
-      | TList _ | TBox _ _ => leaf E m t r
+      | TList _ | TBox _ _ | TRec _ | TArr _ | TUni _ | TFun _ _ | TBad => leaf E m t r
       | TBool =>
           let o := rn r 32 3 in
           if o <? 1 then EPrim (PLEmptyQ ba) [la]
@@ -367,6 +480,20 @@ Fixpoint gen_expr (sz : nat) (E : genv) (m : mode) (t : ty) (r : rng) {struct sz
           else if o <? 11 then EAnd (gen_expr k (force_noif E) m TBool (ch r 1)) (gen_expr k (force_noif E) m TBool (ch r 2))
           else EOr (gen_expr k (force_noif E) m TBool (ch r 1)) (gen_expr k (force_noif E) m TBool (ch r 2))
       | TStr => EPrim PCat [gen_expr k E (sub_mode m) TStr (ch r 1); gen_lit TStr (ch r 2)]
+      | TFun _ _ | TBad => leaf E m t r
+      | TUni fs =>
+          let i := Z.to_nat (rn r 3 (Z.of_nat (List.length fs))) in
+          EUni fs i (gen_expr k (force_noif E) (sub_mode m) (ty_of_bty (nth i fs BMI)) (ch r 5))
+      | TArr b =>
+          (* always a fresh, non-empty array (so that `e mod (# a)` is a valid index everywhere) *)
+          if rb r 3 1 3
+          then EPrim (PANew b) [ELit (LNum NMI (1 + rn r 4 4)); gen_expr k (force_noif E) (sub_mode m) (ty_of_bty b) (ch r 5)]
+          else EArrLit b (map (fun i => gen_expr k (force_noif E) (sub_mode m) (ty_of_bty b) (ch r (Z.of_nat i + 5)))
+                              (seq 0 (S (Z.to_nat (rn r 4 3)))))
+      | TRec fs =>
+          (* always a fresh record; no `if` inside the bracket (see if-inside-list-bracket) *)
+          ERec fs (map (fun ib => gen_expr k (force_noif E) (sub_mode m) (ty_of_bty (snd ib)) (ch r (Z.of_nat (fst ib) + 5)))
+                       (combine (seq 0 (List.length fs)) fs))
       | TBox d n =>
           let o := rn r 3 5 in
           let x := gen_expr k E (sub_mode m) (TBox d n) (ch r 1) in
@@ -396,7 +523,7 @@ Fixpoint gen_expr (sz : nat) (E : genv) (m : mode) (t : ty) (r : rng) {struct sz
                   && (negb (gCallTF E) || negb (gs_try g)))%bool
               then ECall (gs_name g)
                      (EPrim (PSub NMI) [ELoc 0; ELit (LNum NMI 1)]
-                      :: map (fun jt => gen_expr k E MStable (snd jt) (ch r (Z.of_nat (fst jt) + 3)))
+                      :: map (fun jt => gen_expr k (set_pos E 1) MStable (snd jt) (ch r (Z.of_nat (fst jt) + 3)))
                              (combine (seq 0 (List.length (gs_params g))) (tl (gs_params g))))
               else leaf E m t r
           | _, _ => leaf E m t r
@@ -408,18 +535,19 @@ Fixpoint gen_expr (sz : nat) (E : genv) (m : mode) (t : ty) (r : rng) {struct sz
           ECall (gs_name g)
             (map (fun jt =>
                     if (gs_rec g && Nat.eqb (fst jt) 0)%bool then ELit (LNum NMI (rn r 5 5))
-                    else gen_expr k E (am' (fst jt)) (snd jt) (ch r (Z.of_nat (fst jt) + 6)))
+                    else gen_expr k (set_pos E 1) (am' (fst jt)) (snd jt) (ch r (Z.of_nat (fst jt) + 6)))
                  (combine (seq 0 n) (gs_params g)))
       end
     else if c <? 11 then
       if gNoIf E then leaf E m t r
       else if (gTop E && is_list t)%bool then leaf E m t r
-      else let Ei := no_top_loop E in
+      else let Ei := (match t with TRec _ | TArr _ => set_pos (no_top_loop E) (match gPos E with 0%nat => 0%nat | _ => 2%nat end)
+                               | _ => no_top_loop E end) in
            EIf (gen_expr k Ei m TBool (ch r 1)) (gen_expr k Ei m t (ch r 2)) (gen_expr k Ei m t (ch r 3))
     else
       match m with
       | MAny =>
-          if fSeq (gFe E)
+          if (fSeq (gFe E) && negb (match t with TRec _ | TArr _ => true | _ => false end))%bool
           then ESeq (gen_block k (no_ret (no_top_loop E)) (Some t) (Z.to_nat (rn r 3 3)) (ch r 4))
                     (gen_expr k E MAny t (ch r 5))
           else leaf E m t r
@@ -440,12 +568,14 @@ with gen_block (sz : nat) (E : genv) (vs : option ty) (n : nat) (r : rng) {struc
   end
 
 with gen_stmts (sz : nat) (E : genv) (vs : option ty) (r : rng) {struct sz} : list stmt :=
-  let asg_ok (d : ty * vkind) := (k_assignable (snd d) && (lists_ok E || negb (is_list (fst d))))%bool in
+  let E := set_pos E 2 in
+  let asg_ok (d : ty * vkind) := (k_assignable (snd d) && (lists_ok E || negb (is_list (fst d)))
+                                  && negb (gLoop E && match fst d with TFun _ _ => true | _ => false end))%bool in
   let asg_g := idx_where asg_ok 0 (gG E) in
   let asg_l := idx_where asg_ok 0 (gL E) in
   let print1 (k : nat) :=
       (* values of the Box domains have no `<<`: they are observed through unbox *)
-      let tys := filter (fun t => (match t with TBox _ _ => false | _ => true end) && (lists_ok E || negb (is_list t)))%bool
+      let tys := filter (fun t => (match t with TBox _ _ | TRec _ | TUni _ | TFun _ _ => false | _ => true end) && (lists_ok E || negb (is_list t)))%bool
                         (val_types (gFe E)) in
       let t1 := pick r 30 tys TMI in
       let t2 := pick r 31 tys TMI in
@@ -461,12 +591,28 @@ with gen_stmts (sz : nat) (E : genv) (vs : option ty) (r : rng) {struct sz} : li
           if j <? ng then
             let g := nth (Z.to_nat j) gs 0%nat in
             match nth_error (gG E) g with
+            | Some (TRec fs, _) =>
+                if rb r 37 1 2 then [SAssG g (gen_expr k E MAny (TRec fs) (ch r 36))]
+                else let i := Z.to_nat (rn r 38 (Z.of_nat (List.length fs))) in
+                     [SSetG g i (gen_expr k E MPure (ty_of_bty (nth i fs BMI)) (ch r 36))]
+            | Some (TArr b, _) =>
+                if rb r 37 1 2 then [SAssG g (gen_expr k E MAny (TArr b) (ch r 36))]
+                else [SSetIG g (EPrim (PMod NMI) [gen_expr k E MPure TMI (ch r 38); EPrim (PALen b) [EGlob g]])
+                               (gen_expr k E MPure (ty_of_bty b) (ch r 36))]
             | Some (t, _) => [SAssG g (gen_expr k E MAny t (ch r 36))]
             | None => []
             end
           else
             let l := nth (Z.to_nat (j - ng)) ls 0%nat in
             match nth_error (gL E) l with
+            | Some (TRec fs, _) =>
+                if rb r 37 1 2 then [SAssL l (gen_expr k E MAny (TRec fs) (ch r 36))]
+                else let i := Z.to_nat (rn r 38 (Z.of_nat (List.length fs))) in
+                     [SSetL l i (gen_expr k E MPure (ty_of_bty (nth i fs BMI)) (ch r 36))]
+            | Some (TArr b, _) =>
+                if rb r 37 1 2 then [SAssL l (gen_expr k E MAny (TArr b) (ch r 36))]
+                else [SSetIL l (EPrim (PMod NMI) [gen_expr k E MPure TMI (ch r 38); EPrim (PALen b) [ELoc l]])
+                               (gen_expr k E MPure (ty_of_bty b) (ch r 36))]
             | Some (t, _) => [SAssL l (gen_expr k E MAny t (ch r 36))]
             | None => []
             end
@@ -508,10 +654,11 @@ with gen_stmts (sz : nat) (E : genv) (vs : option ty) (r : rng) {struct sz} : li
            (gen_block k (no_top_loop E) None (S (Z.to_nat (rn r 2 2))) (ch r 3))
            (if rb r 4 1 2 then [] else gen_block k (no_top_loop E) None (S (Z.to_nat (rn r 5 2))) (ch r 6))]
     else if c <? 11 then
-      if (lists_ok E && fList (gFe E) && fFor (gFe E) && negb (gNoLoop E) && rb r 7 1 3)%bool then
+      if (lists_ok E && (fList (gFe E) || fArr (gFe E)) && fFor (gFe E) && negb (gNoLoop E) && rb r 7 1 3)%bool then
         let b := pick_elem E r 8 in
         let E' := set_noif (set_loop (set_L E (gL E ++ [(ty_of_bty b, KConst)])) true) in
-        [SForIn b (gen_expr k E MAny (TList b) (ch r 1)) (gen_block k E' None (S (Z.to_nat (rn r 5 3))) (ch r 6))]
+        [SForIn b (gen_expr k (set_pos E 0) MAny (if (fArr (gFe E) && (rb r 9 1 2 || negb (fList (gFe E))))%bool then TArr b else TList b) (ch r 1))
+                  (gen_block k E' None (S (Z.to_nat (rn r 5 3))) (ch r 6))]
       else if (fFor (gFe E) && negb (gNoLoop E))%bool then
         let lo := small_lit NMI (-2) 6 (ch r 1) in
         let hi := if rb r 2 3 4 then small_lit NMI 0 7 (ch r 3)
@@ -572,7 +719,7 @@ with gen_stmts (sz : nat) (E : genv) (vs : option ty) (r : rng) {struct sz} : li
           [SCall (gs_name g)
              (map (fun jt =>
                      if (gs_rec g && Nat.eqb (fst jt) 0)%bool then ELit (LNum NMI (rn r 5 5))
-                     else gen_expr k E MPure (snd jt) (ch r (Z.of_nat (fst jt) + 6)))
+                     else gen_expr k (set_pos E 1) MPure (snd jt) (ch r (Z.of_nat (fst jt) + 6)))
                   (combine (seq 0 n) (gs_params g)))]
       end
   end.
@@ -591,16 +738,17 @@ Definition fresh_name (fs : list fsig) : nat := S (fold_right (fun g a => Nat.ma
 
 (* Build one function definition.  G: globals visible (generator view), fs: earlier functions *)
 Definition gen_fun (sz : nat) (fe : feats) (G : list (ty * vkind)) (fs : list fsig) (r : rng)
+           (forced : option (nat * list ty * ty))   (* helper for function values: (captured, parameters, result) *)
   : fundef * fsig :=
-  let isrec := (fRec fe && rb r 1 1 3)%bool in
+  let isrec := (fRec fe && rb r 1 1 3 && match forced with None => true | _ => false end)%bool in
   let ps0 := gen_params fe (ch r 2) in
-  let ps := if isrec then TMI :: ps0 else ps0 in
-  let ret := gen_ty fe r 3 in
+  let ps := match forced with Some (_, fps, _) => fps | None => if isrec then TMI :: ps0 else ps0 end in
+  let ret := match forced with Some (_, _, fr) => fr | None => gen_ty fe r 3 end in
   (* overloading: reuse an earlier name with a different parameter list; the purity of a
      name is shared by all its definitions                                                *)
   let reuse := match fs with
                | [] => None
-               | g0 :: _ => if (fOvl fe && rb r 4 1 2)%bool
+               | g0 :: _ => if (fOvl fe && rb r 4 1 2 && match forced with None => true | _ => false end)%bool
                             then let g := pick r 5 fs g0 in
                                  if sig_taken fs (gs_name g) ps then None else Some g
                             else None
@@ -612,13 +760,13 @@ Definition gen_fun (sz : nat) (fe : feats) (G : list (ty * vkind)) (fs : list fs
      own `try` catches an exception (reported as a finding): per program, `try` stands either
      at file level only or inside functions only (fTryTop).                                  *)
   let maytry := (fExn fe && negb pure && negb (fTryTop fe))%bool in
-  let me := mkSig name ps ret pure isrec thr maytry in
+  let me := mkSig name ps ret pure isrec thr maytry (match forced with Some (k, _, _) => Some k | None => None end) in
   let np := List.length ps in
   let nloc := Z.to_nat (rn r 7 3) in
   let ncnt := if fWhile fe then Z.to_nat (rn r 8 2) else 0%nat in
   let ltys := map (fun i => gen_ty fe r (Z.of_nat i + 50)) (seq 0 nloc) in
   let pframe := map (fun t => (t, KConst)) ps in
-  let E0 := mkGenv fe G fs pframe [] false (Some ret) false pure None false false false false (negb maytry) false (negb maytry) in
+  let E0 := mkGenv fe G fs pframe [] false (Some ret) false pure None false false false false (negb maytry) false (negb maytry) 2%nat in
   (* initialisers of the locals: each sees the parameters and the earlier locals *)
   let locals :=
       (fix go (i : nat) (ts : list ty) (fr : list (ty * vkind)) : list (ty * expr) :=
@@ -630,7 +778,7 @@ Definition gen_fun (sz : nat) (fe : feats) (G : list (ty * vkind)) (fs : list fs
   let cnts := map (fun _ => (TMI, ELit (LNum NMI 0))) (seq 0 ncnt) in
   let frame := pframe ++ map (fun t => (t, KVar)) ltys ++ map (fun _ => (TMI, KCnt)) (seq 0 ncnt) in
   let E := mkGenv fe G fs frame (seq (np + nloc) ncnt) false (Some ret) false pure
-                  (if isrec then Some me else None) false false false thr (negb maytry) false (negb maytry) in
+                  (if isrec then Some me else None) false false false thr (negb maytry) false (negb maytry) 2%nat in
   let guard := if isrec
                then [SExitV (EPrim (PLe NMI) [ELoc 0; ELit (LNum NMI 0)]) (gen_expr 1 (set_L E0 pframe) MPure ret (ch r 9))]
                else [] in
@@ -655,10 +803,17 @@ Fixpoint gen_items (n : nat) (sz : nat) (fe : feats) (G : list (ty * vkind)) (cn
       (* finally print every global, so that the whole final state is observed *)
       map (fun k => IStmt (SPrint [match nth_error G k with
                                    | Some (TBox d n, _) => EPrim (PUnbox d n) [EGlob k]
+                                   | Some (TRec fs, _) => EField 0 (EGlob k)
+                                   | Some (TUni fs, _) => ECase 0 (EGlob k)
+                                   | Some (TFun _ _, _) => ELit (LStr "fn"%string)
                                    | _ => EGlob k
                                    end])) (seq 0 (List.length G))
+      ++ flat_map (fun k => match nth_error G k with
+                            | Some (TRec fs, _) => map (fun i => IStmt (SPrint [EField i (EGlob k)])) (seq 1 (List.length fs - 1))
+                            | _ => []
+                            end) (seq 0 (List.length G))
   | S n' =>
-      let E := mkGenv fe G fs [] cnt true None false false None false false false false false false false in
+      let E := mkGenv fe G fs [] cnt true None false false None false false false false false false false 2%nat in
       let c := rn r 0 10 in
       if c <? 3 then
         let t := gen_ty fe r 1 in
@@ -667,7 +822,7 @@ Fixpoint gen_items (n : nat) (sz : nat) (fe : feats) (G : list (ty * vkind)) (cn
         (if isvar then IVar t e else IConst t e)
         :: gen_items n' sz fe (G ++ [(t, if isvar then KVar else KConst)]) cnt fs (ch r 4)
       else if (c <? 5) && fFun fe then
-        let (fd, g) := gen_fun sz fe G fs (ch r 1) in
+        let (fd, g) := gen_fun sz fe G fs (ch r 1) None in
         IFun fd :: gen_items n' sz fe G cnt (fs ++ [g]) (ch r 4)
       else
         map (fun st => IStmt (no_top_exit st)) (gen_stmts (S sz) E None (ch r 1)) ++ gen_items n' sz fe G cnt fs (ch r 4)
@@ -679,7 +834,23 @@ Definition gen0 (fe : feats) (r : rng) (size : nat) : prog :=
   let pre := if fWhile fe then [IVar TMI (ELit (LNum NMI 0)); IVar TMI (ELit (LNum NMI 0))] else [] in
   let G0 := if fWhile fe then [(TMI, KCnt); (TMI, KCnt)] else [] in
   let cnt := if fWhile fe then [0%nat; 1%nat] else [] in
-  pre ++ gen_items (3 + size)%nat sz fe G0 cnt [] (ch r 1).
+  (* helpers for function values come first: they see no global (fd_nglob = 0) and use the base
+     types only *)
+  let fe_base := mkFeats (fInt fe) (fStr fe) (fFun fe) false (fOvl fe) (fWhile fe) (fFor fe) (fExit fe) (fSeq fe)
+                         false false false false (fMac fe) false false false false (fTryTop fe) (fQual fe) in
+  let helpers :=
+      if fClo fe then
+        (fix go (i : nat) (shs : list (list bty * list bty * bty)) (fs : list fsig) : list item * list fsig :=
+           match shs with
+           | [] => ([], fs)
+           | (caps, ps, r0) :: rest =>
+               let (fd, g) := gen_fun 2 fe_base [] fs (ch r (Z.of_nat i + 50))
+                                      (Some (List.length caps, map ty_of_bty (caps ++ ps), ty_of_bty r0)) in
+               let (its, fs') := go (S i) rest (fs ++ [g]) in
+               (IFun fd :: its, fs')
+           end) 0%nat (clo_shapes fe) []
+      else ([], []) in
+  fst helpers ++ pre ++ gen_items (3 + size)%nat sz fe G0 cnt (snd helpers) (ch r 1).
 
 (* rendering style of the literals of the program generated from [seed] *)
 Definition style_of_seed (seed : Z) : Print.style :=
